@@ -101,7 +101,7 @@ def _steer(rng, q0, n_events, close_p=0.04, garbage_p=0.03):
 
 def c05_pipeline_gen(rng, tier):
     out = []
-    n = budget(tier, 110, 2500)
+    n = budget(tier, 900, 15000)
     for net in ("tcp", "udp"):
         for i in range(n):
             r = rng.random()
@@ -114,7 +114,7 @@ def c05_pipeline_gen(rng, tier):
             else:
                 q0 = rng.randrange(1, 65000)
             ln = rng.choice([6, 10, 16, 24, 40]) if tier == "quick" else rng.choice([8, 16, 32, 64, 120])
-            ev = _steer(rng, q0, ln, close_p=rng.choice([0.0, 0.04, 0.08]), garbage_p=rng.choice([0.0, 0.03]))
+            ev = _steer(rng, q0, ln, close_p=rng.choice([0.0, 0.0, 0.04, 0.08]), garbage_p=rng.choice([0.0, 0.0, 0.03]))
             out.append("h%s%d net=%s q0=%d ev=%s" % (net[0], i, net, q0, ",".join(ev)))
     return out
 
@@ -227,9 +227,9 @@ def c05_conc_gen(rng, tier):
                 rng.choice([0, 10, 30]), rng.choice([0, 10, 30]), rng.choice([0, 1, 3]), rng.choice([0, 3, 10])))
         out.append("kfull net=tcp n=70000 par=64 seed=%d q0=0 dup=10 unsol=10 drop=0 cancel=2" % rng.randrange(1 << 30))
     else:
-        out.append("k0 net=tcp n=1500 par=24 seed=%d q0=0 dup=20 unsol=20 drop=1 cancel=5" % rng.randrange(1 << 30))
-        out.append("k1 net=udp n=1500 par=24 seed=%d q0=0 dup=20 unsol=20 drop=1 cancel=5" % rng.randrange(1 << 30))
-        out.append("k2 net=tcp n=1500 par=16 seed=%d q0=%d dup=20 unsol=20 drop=0 cancel=3" % (
+        out.append("k0 net=tcp n=4000 par=24 seed=%d q0=0 dup=20 unsol=20 drop=1 cancel=5" % rng.randrange(1 << 30))
+        out.append("k1 net=udp n=4000 par=24 seed=%d q0=0 dup=20 unsol=20 drop=1 cancel=5" % rng.randrange(1 << 30))
+        out.append("k2 net=tcp n=3000 par=16 seed=%d q0=%d dup=20 unsol=20 drop=0 cancel=3" % (
             rng.randrange(1 << 30), 65536 - rng.randrange(200, 900)))
     return out
 
@@ -246,8 +246,10 @@ PROPS["C05"] = dict(
         dict(name="pipeline", gen=c05_pipeline_gen, oracle=c05_pipeline_oracle, classify=c05_pipeline_classify,
              nontrivial=lambda l, r: "M" in r, timeout=900),
         dict(name="pipeline_eol", gen=c05_eol_gen, oracle=c05_eol_oracle,
+             classify=lambda l, r: gens.fields(l).get("net", "?") + ("+retired" if "retired=1" in r else ""),
              nontrivial=lambda l, r: "retired=1" in r, timeout=900),
         dict(name="pipeline_conc", gen=c05_conc_gen, oracle=c05_conc_oracle, model=False,
+             classify=lambda l, r: gens.fields(l).get("net", "?") + ("+eol" if gens.fields(l).get("q0", "0") != "0" else ""),
              nontrivial=lambda l, r: "viol=none" in r, timeout=1500),
     ],
     rule="pipeline: quiescent histories (start / reply by exchange / absolute-id emission / garbage / cancel / close) "
